@@ -1,312 +1,129 @@
 #!/usr/bin/env python3
-"""Translator: regenerates coq/gen/Extracted.v from /repo's current working tree.
+"""Translator: regenerates coq/gen/Extracted.v (and coq/gen/extracted_meta.json) from /repo's working tree.
 
-Only literals and shapes are copied (constants, byte-array literals, buffer sizes, the Noise token
-pattern, the protocol name, literal arguments of the scrypt/hkdf calls).  Nothing is defaulted: a
-constant that cannot be located raises ExtractError naming it, which the check reports as a broken
-tie (translator:<item>).  The file is rewritten only when its content changes, so that make does
-not rebuild dependants needlessly.
+Only literals and shapes are copied (constants, byte-array literals, buffer sizes, slice bounds, endianness,
+the Noise token pattern, the protocol name, literal arguments and the ROLES of the arguments of the
+scrypt/hkdf/noise/AEAD calls, keyring keywords, CLI words and option tables).  Nothing is defaulted: an item
+that cannot be located raises ExtractError naming it, which the check reports as a broken tie
+(translator:<item>).  Both files are rewritten only when their content changes, so that make does not
+rebuild dependants needlessly.
+
+How an item is located (tools/rustlite.py, tools/rustfn.py do the reading):
+  * every item has an ordered list of PATTERNS; the first that succeeds gives the value.  The first patterns find
+    the item by its ROLE at the use site ("the constant passed as chunk size to encrypt_chunks in key_encrypt",
+    "the buffer filled by the second read_exact of key_decrypt", "the bound in the comparison that guards the
+    noise message"), so that the NAME of a constant or of a local variable does not matter; the last pattern is the
+    former name-based one (`const CHUNK_SIZE`, `let asym_v1`).
+  * constant expressions are EVALUATED (radix, `_`, suffixes, + - * / << >>, parentheses, `as`, other constants of
+    the crate wherever they are defined, `u32::MAX`), never matched textually.
+  * coq/gen/extracted_meta.json records for every item the pattern that located it, the file and the line.
+
+KESTREL_REPO=<dir> points the translator at another tree; KESTREL_EXTRACT_OUT=<dir> writes the two files there.
+tools/test_extract.py is the self-test (harmless rewrites keep every value, real changes do not).
 """
-import os, re, sys, json
+import os, sys, json
+
+sys.path.insert(0, os.path.dirname(os.path.abspath(__file__)))
+from rustlite import ExtractError, Crate          # noqa: E402
+from rustfn import FnCtx                          # noqa: E402
 
 REPO = os.environ.get("KESTREL_REPO", "/repo")
-OUT = os.path.join(os.path.dirname(os.path.abspath(__file__)), "..", "coq", "gen", "Extracted.v")
+GEN = os.environ.get("KESTREL_EXTRACT_OUT") or \
+    os.path.join(os.path.dirname(os.path.abspath(__file__)), "..", "coq", "gen")
 
 
-class ExtractError(Exception):
-    pass
+from xt_common import Roles, Tokens, Texts, Words, OptTable   # noqa: E402  (typed values for rendering)
 
 
-def read(rel):
-    p = os.path.join(REPO, rel)
-    try:
-        with open(p, encoding="utf-8") as f:
-            return f.read()
-    except OSError as e:
-        raise ExtractError("file:%s (%s)" % (rel, e))
+ROLE_NULLARY = ["RSrc", "RDst", "RSender", "RSenderPub", "RRecipient", "RRecipientPub", "REphemeral", "REphemeralPub",
+                "RPayloadKey", "RPassword", "RSalt", "RPrologue", "RMagic", "RNoiseMsg", "RHandshakeMsg",
+                "RHandshakeHash", "RFileKey", "RPassKey", "REmpty", "RAad", "RKey", "RChunkSize", "RCounter",
+                "RAuthData", "RChunkBody", "RNonce", "RVersion", "RCiphertext", "RPlaintext", "RPrivateKey",
+                "RLocked", "RHeader", "RSealed", "RFlush", "RFlagBytes", "RLenBytes", "RChecksum", "RPublicKey",
+                "RTrue", "RFalse", "RNone", "RFileFormat", "RNoiseOut", "RHash", "ROut", "RCostN", "RCostR", "RCostP"]
+ROLE_UNARY_N = ["RConst", "RZeros", "RParam", "RRandom"]
+ROLE_UNARY_R = ["RSome", "RLenOf"]
 
 
-def strip_comments(src):
-    # remove // line comments and /* */ block comments, keep string literals intact (good enough:
-    # the sources contain no comment markers inside string literals except URLs in doc comments)
-    out = []
-    i = 0
-    n = len(src)
-    in_str = False
-    while i < n:
-        c = src[i]
-        if in_str:
-            out.append(c)
-            if c == "\\" and i + 1 < n:
-                out.append(src[i + 1])
-                i += 2
+def role_str(r):
+    if isinstance(r, str):
+        if r not in ROLE_NULLARY:
+            raise ExtractError("render:unknown role " + r)
+        return r
+    h = r[0]
+    if h in ROLE_UNARY_N:
+        return "(%s %d)" % (h, r[1])
+    if h in ROLE_UNARY_R:
+        return "(%s %s)" % (h, role_str(r[1]))
+    raise ExtractError("render:unknown role %r" % (r,))
+
+
+# ------------------------------------------------------------------ session
+class Session:
+    def __init__(self, repo):
+        self.repo = repo
+        self.E = {}
+        self.M = {}
+        self.crypto = Crate(repo, "src/crypto/src")
+        self.cli = Crate(repo, "src/cli/src")
+        self.ffi = Crate(repo, "src/ffi/src")
+        self._fc = {}
+
+    def fn(self, crate, name, item, impl=None, pick=None):
+        key = (crate.sub, name, impl, getattr(pick, "__name__", None))
+        if key not in self._fc:
+            self._fc[key] = FnCtx(crate, crate.find_fn(name, item, impl, pick))
+        return self._fc[key]
+
+    def put(self, name, value, pattern, where):
+        if name in self.E:
+            raise ExtractError("internal:item %s defined twice" % name)
+        self.E[name] = value
+        self.M[name] = {"pattern": pattern, "file": where.get("file"), "line": where.get("line")}
+
+    def item(self, name, *alts):
+        """alts: (pattern_name, thunk); thunk returns (value, where).  First success wins."""
+        errs = []
+        for (pat, th) in alts:
+            try:
+                v, w = th()
+            except ExtractError as e:
+                errs.append("%s: %s" % (pat, e))
                 continue
-            if c == '"':
-                in_str = False
-            i += 1
-        elif c == '"':
-            in_str = True
-            out.append(c)
-            i += 1
-        elif src.startswith("//", i):
-            j = src.find("\n", i)
-            i = n if j < 0 else j
-        elif src.startswith("/*", i):
-            j = src.find("*/", i + 2)
-            i = n if j < 0 else j + 2
-        else:
-            out.append(c)
-            i += 1
-    return "".join(out)
+            self.put(name, v, pat, w)
+            return v
+        raise ExtractError("%s [%s]" % (name, " | ".join(errs)))
+
+    def group(self, names, *alts):
+        """like item, for thunks that return ({name: value}, where) for several items located together"""
+        errs = []
+        for (pat, th) in alts:
+            try:
+                d, w = th()
+            except ExtractError as e:
+                errs.append("%s: %s" % (pat, e))
+                continue
+            for n in names:
+                if n not in d:
+                    raise ExtractError("internal:%s missing from group" % n)
+                wn = w.get(n, w) if isinstance(w.get(n, None), dict) else w
+                self.put(n, d[n], pat, wn)
+            return d
+        raise ExtractError("%s [%s]" % ("/".join(names), " | ".join(errs)))
 
 
-def fn_body(src, name, item):
-    """text between the braces of `fn name`; test modules are cut off first"""
-    cut = src.find("#[cfg(test)]")
-    s = src if cut < 0 else src[:cut]
-    m = re.search(r"\bfn\s+%s\s*(<[^{;]*?>)?\s*\(" % re.escape(name), s)
-    if not m:
-        raise ExtractError(item + ":fn " + name)
-    i = s.find("{", m.end())
-    # skip to the body's opening brace: the first '{' after the closing ')' of the parameter list
-    depth = 0
-    j = m.end() - 1
-    while j < len(s):
-        if s[j] == "(":
-            depth += 1
-        elif s[j] == ")":
-            depth -= 1
-            if depth == 0:
-                break
-        j += 1
-    i = s.find("{", j)
-    if i < 0:
-        raise ExtractError(item + ":body of " + name)
-    depth = 0
-    k = i
-    while k < len(s):
-        if s[k] == "{":
-            depth += 1
-        elif s[k] == "}":
-            depth -= 1
-            if depth == 0:
-                return s[i + 1:k]
-        k += 1
-    raise ExtractError(item + ":unbalanced " + name)
+def extract(repo=None):
+    S = Session(repo or REPO)
+    import xt_crypto, xt_files, xt_cli
+    xt_crypto.run(S)      # lib.rs, noise.rs, scrypt.rs
+    xt_files.run(S)       # encrypt.rs, decrypt.rs
+    xt_cli.run(S)         # keyring.rs, main.rs, commands.rs, ffi, Cargo.lock
+    return S.E, S.M
 
 
-def intlit(tok, item):
-    t = tok.strip().replace("_", "")
-    t = re.sub(r"(u8|u16|u32|u64|usize|i32|i64)$", "", t)
-    try:
-        if t.startswith("0x"):
-            return int(t, 16)
-        return int(t)
-    except ValueError:
-        raise ExtractError(item + ":int " + tok)
-
-
-def const_int(src, name, item):
-    m = re.search(r"\bconst\s+%s\s*:\s*\w+\s*=\s*([^;]+);" % name, src)
-    if not m:
-        raise ExtractError(item)
-    return intlit(m.group(1), item)
-
-
-def const_bytes(src, name, item):
-    m = re.search(r"\bconst\s+%s\s*:\s*\[\s*u8\s*;\s*(\d+)\s*\]\s*=\s*\[([^\]]*)\]\s*;" % name, src)
-    if not m:
-        raise ExtractError(item)
-    vals = [intlit(x, item) for x in m.group(2).split(",") if x.strip()]
-    if len(vals) != int(m.group(1)):
-        raise ExtractError(item + ":length")
-    return vals
-
-
-def let_bytes(body, name, item):
-    m = re.search(r"\blet\s+%s\s*=\s*\[([^\]]*)\]\s*;" % name, body)
-    if not m:
-        raise ExtractError(item)
-    return [intlit(x, item) for x in m.group(1).split(",") if x.strip()]
-
-
-def buf_size(body, name, item):
-    m = re.search(r"\blet\s+mut\s+%s\s*(?::[^=]*)?=\s*\[\s*0u8\s*;\s*(\d+)\s*\]\s*;" % name, body)
-    if not m:
-        raise ExtractError(item)
-    return int(m.group(1))
-
-
-def call_args(body, callee, item, nth=0):
-    """argument texts of the nth call `callee(...)` in body"""
-    pos = 0
-    for _ in range(nth + 1):
-        m = re.compile(r"\b%s\s*\(" % re.escape(callee)).search(body, pos)
-        if not m:
-            raise ExtractError(item + ":call " + callee)
-        pos = m.end()
-    depth = 1
-    args, cur = [], []
-    k = m.end()
-    while k < len(body):
-        c = body[k]
-        if c in "([{":
-            depth += 1
-        elif c in ")]}":
-            depth -= 1
-            if depth == 0:
-                break
-        if c == "," and depth == 1:
-            args.append("".join(cur).strip())
-            cur = []
-        else:
-            cur.append(c)
-        k += 1
-    last = "".join(cur).strip()
-    if last:
-        args.append(last)
-    return [re.sub(r"\s+", " ", a) for a in args]
-
-
-def extract():
-    E = {}
-    lib = strip_comments(read("src/crypto/src/lib.rs"))
-    enc = strip_comments(read("src/crypto/src/encrypt.rs"))
-    dec = strip_comments(read("src/crypto/src/decrypt.rs"))
-    noi = strip_comments(read("src/crypto/src/noise.rs"))
-    kr = strip_comments(read("src/cli/src/keyring.rs"))
-
-    # ---- lib.rs
-    for n in ("CHUNK_SIZE", "SCRYPT_N", "SCRYPT_R", "SCRYPT_P", "TAG_SIZE"):
-        E["lib_" + n.lower()] = const_int(lib, n, "lib.rs:" + n)
-    b = fn_body(lib, "chapoly_encrypt_noise", "lib.rs:nonce")
-    E["noise_nonce_len"] = buf_size(b, "final_nonce_bytes", "lib.rs:chapoly_encrypt_noise:final_nonce_bytes")
-    m = re.search(r"final_nonce_bytes\s*\[\s*(\d+)\s*\.\.\s*\]\s*\.copy_from_slice\(\s*&nonce_bytes\s*\)", b)
-    if not m or "to_le_bytes" not in b:
-        raise ExtractError("lib.rs:chapoly_encrypt_noise:nonce layout")
-    E["noise_nonce_off_enc"] = int(m.group(1))
-    b = fn_body(lib, "chapoly_decrypt_noise", "lib.rs:nonce")
-    m = re.search(r"final_nonce_bytes\s*\[\s*(\d+)\s*\.\.\s*\]\s*\.copy_from_slice\(\s*&nonce_bytes\s*\)", b)
-    if not m or "to_le_bytes" not in b:
-        raise ExtractError("lib.rs:chapoly_decrypt_noise:nonce layout")
-    E["noise_nonce_off_dec"] = int(m.group(1))
-
-    # ---- encrypt.rs
-    E["prologue"] = const_bytes(enc, "PROLOGUE", "encrypt.rs:PROLOGUE")
-    E["pass_file_magic"] = const_bytes(enc, "PASS_FILE_MAGIC", "encrypt.rs:PASS_FILE_MAGIC")
-    b = fn_body(enc, "key_encrypt", "encrypt.rs:key_encrypt")
-    a = call_args(b, "hkdf_sha256", "encrypt.rs:key_encrypt:hkdf")
-    if len(a) != 4:
-        raise ExtractError("encrypt.rs:key_encrypt:hkdf arity")
-    E["enc_hkdf_salt_empty"] = 1 if a[0] in ("&[]", "&[ ]") else 0
-    E["enc_hkdf_len"] = intlit(a[3], "encrypt.rs:key_encrypt:hkdf len")
-    a = call_args(b, "encrypt_chunks", "encrypt.rs:key_encrypt:encrypt_chunks")
-    E["enc_key_aad_empty"] = 1 if a[3] in ("&[]", "&[ ]") else 0
-    E["enc_key_cs_is_const"] = 1 if a[4] == "CHUNK_SIZE" else 0
-    b = fn_body(enc, "pass_encrypt", "encrypt.rs:pass_encrypt")
-    a = call_args(b, "scrypt", "encrypt.rs:pass_encrypt:scrypt")
-    E["enc_scrypt_args_const"] = 1 if a[2:5] == ["SCRYPT_N", "SCRYPT_R", "SCRYPT_P"] else 0
-    E["enc_scrypt_len"] = intlit(a[5], "encrypt.rs:pass_encrypt:scrypt len")
-    a = call_args(b, "encrypt_chunks", "encrypt.rs:pass_encrypt:encrypt_chunks")
-    E["enc_pass_cs_is_const"] = 1 if a[4] == "CHUNK_SIZE" else 0
-    b = fn_body(enc, "encrypt_chunks", "encrypt.rs:encrypt_chunks")
-    E["enc_chunk_header_len"] = buf_size(b, "chunk_header", "encrypt.rs:encrypt_chunks:chunk_header")
-
-    # ---- decrypt.rs
-    b = fn_body(dec, "valid_file_format", "decrypt.rs:valid_file_format")
-    E["dec_asym_v1"] = let_bytes(b, "asym_v1", "decrypt.rs:valid_file_format:asym_v1")
-    E["dec_pass_v1"] = let_bytes(b, "pass_v1", "decrypt.rs:valid_file_format:pass_v1")
-    b = fn_body(dec, "key_decrypt", "decrypt.rs:key_decrypt")
-    E["dec_prologue_len"] = buf_size(b, "prologue", "decrypt.rs:key_decrypt:prologue")
-    E["dec_handshake_len"] = buf_size(b, "handshake_message", "decrypt.rs:key_decrypt:handshake_message")
-    a = call_args(b, "hkdf_sha256", "decrypt.rs:key_decrypt:hkdf")
-    E["dec_hkdf_salt_empty"] = 1 if a[0] in ("&[]", "&[ ]") else 0
-    E["dec_hkdf_len"] = intlit(a[3], "decrypt.rs:key_decrypt:hkdf len")
-    a = call_args(b, "decrypt_chunks", "decrypt.rs:key_decrypt:decrypt_chunks")
-    E["dec_key_aad_empty"] = 1 if a[3] in ("&[]", "&[ ]") else 0
-    E["dec_key_cs_is_const"] = 1 if a[4] == "CHUNK_SIZE" else 0
-    b = fn_body(dec, "pass_decrypt", "decrypt.rs:pass_decrypt")
-    E["dec_magic_len"] = buf_size(b, "pass_magic_num", "decrypt.rs:pass_decrypt:pass_magic_num")
-    E["dec_salt_len"] = buf_size(b, "salt", "decrypt.rs:pass_decrypt:salt")
-    a = call_args(b, "scrypt", "decrypt.rs:pass_decrypt:scrypt")
-    E["dec_scrypt_args_const"] = 1 if a[2:5] == ["SCRYPT_N", "SCRYPT_R", "SCRYPT_P"] else 0
-    E["dec_scrypt_len"] = intlit(a[5], "decrypt.rs:pass_decrypt:scrypt len")
-    a = call_args(b, "decrypt_chunks", "decrypt.rs:pass_decrypt:decrypt_chunks")
-    E["dec_pass_cs_is_const"] = 1 if a[4] == "CHUNK_SIZE" else 0
-    b = fn_body(dec, "decrypt_chunks", "decrypt.rs:decrypt_chunks")
-    E["dec_chunk_header_len"] = buf_size(b, "chunk_header", "decrypt.rs:decrypt_chunks:chunk_header")
-    m = re.search(r"if\s+last_chunk_indicator\s*==\s*(\d+)", b)
-    if not m:
-        raise ExtractError("decrypt.rs:decrypt_chunks:last flag test")
-    E["dec_last_flag"] = int(m.group(1))
-
-    # ---- noise.rs
-    E["noise_hash_len"] = const_int(noi, "HASH_LEN", "noise.rs:HASH_LEN")
-    E["noise_dh_len"] = const_int(noi, "DH_LEN", "noise.rs:DH_LEN")
-    b = fn_body(noi, "init_x", "noise.rs:init_x")
-    m = re.search(r'SymmetricState::new\(\s*"([^"]*)"\s*\)', b)
-    if not m:
-        raise ExtractError("noise.rs:init_x:protocol name")
-    E["noise_protocol_name"] = [ord(c) for c in m.group(1)]
-    m = re.search(r"let\s+pattern\s*=\s*vec!\[([^\]]*)\]", b)
-    if not m:
-        raise ExtractError("noise.rs:init_x:pattern")
-    toks = [t.strip() for t in m.group(1).split(",") if t.strip()]
-    for t in toks:
-        if not re.fullmatch(r"Token::(E|S|EE|ES|SE|SS)", t):
-            raise ExtractError("noise.rs:init_x:pattern token " + t)
-    E["noise_pattern"] = [t.split("::")[1] for t in toks]
-    b = fn_body(noi, "read_message", "noise.rs:read_message")
-    m = re.search(r"if\s+message\.len\(\)\s*<\s*(\d+)\s*\|\|\s*message\.len\(\)\s*>\s*(\d+)", b)
-    if not m:
-        raise ExtractError("noise.rs:read_message:length guard")
-    E["noise_guard_min"] = int(m.group(1))
-    E["noise_guard_max"] = int(m.group(2))
-    b = fn_body(noi, "set_nonce", "noise.rs:set_nonce")
-    E["noise_set_nonce_assert_max"] = 1 if re.search(r"assert!\(\s*nonce\s*<\s*u64::MAX\s*\)", b) else 0
-
-    # ---- keyring.rs
-    E["kr_private_key_version"] = const_bytes(kr, "PRIVATE_KEY_VERSION", "keyring.rs:PRIVATE_KEY_VERSION")
-    for n in ("MAX_NAME_SIZE", "SCRYPT_N", "SCRYPT_R", "SCRYPT_P", "PRIVATE_KEY_CT_LEN", "PUBLIC_KEY_LEN"):
-        E["kr_" + n.lower()] = const_int(kr, n, "keyring.rs:" + n)
-    b = fn_body(kr, "lock_private_key", "keyring.rs:lock_private_key")
-    a = call_args(b, "kestrel_crypto::scrypt", "keyring.rs:lock:scrypt")
-    E["kr_lock_scrypt_args_const"] = 1 if a[2:5] == ["SCRYPT_N", "SCRYPT_R", "SCRYPT_P"] else 0
-    E["kr_lock_scrypt_len"] = intlit(a[5], "keyring.rs:lock:scrypt len")
-    E["kr_lock_nonce_len"] = buf_size(b.replace("let nonce", "let mut nonce"), "nonce", "keyring.rs:lock:nonce")
-    b = fn_body(kr, "unlock_private_key", "keyring.rs:unlock_private_key")
-    a = call_args(b, "kestrel_crypto::scrypt", "keyring.rs:unlock:scrypt")
-    E["kr_unlock_scrypt_args_const"] = 1 if a[2:5] == ["SCRYPT_N", "SCRYPT_R", "SCRYPT_P"] else 0
-    E["kr_unlock_scrypt_len"] = intlit(a[5], "keyring.rs:unlock:scrypt len")
-    E["kr_unlock_nonce_len"] = buf_size(b.replace("let nonce", "let mut nonce"), "nonce", "keyring.rs:unlock:nonce")
-    bu = fn_body(kr, "unlock_private_key", "keyring.rs:unlock_private_key")
-    def rng(expr, item):
-        m = re.search(r"&key_bytes\[\s*(\d*)\s*\.\.\s*(\d*)\s*\]", expr)
-        if not m:
-            raise ExtractError(item)
-        return (int(m.group(1) or 0), int(m.group(2) or 0))
-    m1 = re.search(r"let\s+version_aad\s*=\s*(&key_bytes\[[^\]]*\])", bu)
-    m2 = re.search(r"let\s+salt\s*=\s*(&key_bytes\[[^\]]*\])", bu)
-    m3 = re.search(r"let\s+ciphertext\s*=\s*(&key_bytes\[[^\]]*\])", bu)
-    if not (m1 and m2 and m3):
-        raise ExtractError("keyring.rs:unlock_private_key:slices")
-    E["kr_unlock_version_end"] = rng(m1.group(1), "keyring.rs:unlock:version slice")[1]
-    E["kr_unlock_salt_lo"], E["kr_unlock_salt_hi"] = rng(m2.group(1), "keyring.rs:unlock:salt slice")
-    E["kr_unlock_ct_lo"], E["kr_unlock_ct_hi"] = rng(m3.group(1), "keyring.rs:unlock:ciphertext slice")
-    m = re.search(r"impl\s+TryFrom<&str>\s+for\s+EncodedPk.*?if\s+s\.len\(\)\s*!=\s*(\d+)", kr, re.S)
-    if not m:
-        raise ExtractError("keyring.rs:EncodedPk::try_from:length")
-    E["kr_encoded_pk_try_len"] = int(m.group(1))
-    bd = fn_body(kr, "decode_public_key", "keyring.rs:decode_public_key")
-    m = re.search(r"let\s+pk\s*=\s*&enc_pk_bytes\[\s*\.\.\s*(\d+)\s*\]", bd)
-    m4 = re.search(r"let\s+checksum\s*=\s*&enc_pk_bytes\[\s*(\d+)\s*\.\.\s*\]", bd)
-    m5 = re.search(r"&exp_checksum\[\s*\.\.\s*(\d+)\s*\]", bd)
-    if not (m and m4 and m5):
-        raise ExtractError("keyring.rs:decode_public_key:slices")
-    E["kr_decode_pk_end"], E["kr_decode_ck_start"], E["kr_checksum_len"] = int(m.group(1)), int(m4.group(1)), int(m5.group(1))
-    b = fn_body(kr, "encode_public_key", "keyring.rs:encode_public_key")
-    E["kr_encoded_pk_len"] = buf_size(b, "encoded", "keyring.rs:encode_public_key:encoded")
-    return E
+# ------------------------------------------------------------------ rendering
+def nlist(v):
+    return "[%s]" % "; ".join(str(x) for x in v)
 
 
 def render(E):
@@ -317,35 +134,71 @@ def render(E):
     L.append("Import ListNotations.")
     L.append("Local Open Scope N_scope.")
     L.append("Inductive token := TE | TS | TEE | TES | TSE | TSS.")
+    L.append("(* what an argument expression of a call IS, found by following the local bindings back to a parameter,")
+    L.append("   a constant, a buffer filled by a read, the result of another call ... (tools/extract.py) *)")
+    L.append("Inductive role :=")
+    L.append("| " + " | ".join(ROLE_NULLARY))
+    L.append("| " + " | ".join("%s (n : N)" % r for r in ROLE_UNARY_N))
+    L.append("| " + " | ".join("%s (r : role)" % r for r in ROLE_UNARY_R) + ".")
     for k in sorted(E):
         v = E[k]
-        if k == "noise_pattern":
+        if isinstance(v, Tokens):
             L.append("Definition x_%s : list token := [%s]." % (k, "; ".join("T" + t for t in v)))
+        elif isinstance(v, Roles):
+            L.append("Definition x_%s : list role := [%s]." % (k, "; ".join(role_str(r) for r in v)))
+        elif isinstance(v, Texts):
+            L.append("Definition x_%s : list (list N) := [%s]." % (k, "; ".join(nlist(x) for x in v)))
+        elif isinstance(v, Words):
+            L.append("Definition x_%s : list (list (list N)) := [%s]." % (
+                k, "; ".join("[%s]" % "; ".join(nlist(w) for w in arm) for arm in v)))
+        elif isinstance(v, OptTable):
+            L.append("Definition x_%s : list (N * list N * list N) := [%s]." % (
+                k, "; ".join("(%d, %s, %s)" % (kd, nlist(s), nlist(l)) for (kd, s, l) in v)))
         elif isinstance(v, list):
-            L.append("Definition x_%s : list N := [%s]." % (k, "; ".join(str(x) for x in v)))
+            L.append("Definition x_%s : list N := %s." % (k, nlist(v)))
+        elif isinstance(v, bool) or not isinstance(v, int):
+            raise ExtractError("render:%s has an unsupported value %r" % (k, v))
         else:
+            if v < 0:
+                raise ExtractError("render:%s is negative (%d)" % (k, v))
             L.append("Definition x_%s : N := %d." % (k, v))
     return "\n".join(L) + "\n"
 
 
+def jsonable(E):
+    out = {}
+    for k, v in E.items():
+        if isinstance(v, Roles):
+            out[k] = [role_str(r) for r in v]
+        else:
+            out[k] = v
+    return out
+
+
+def write_if_changed(path, txt):
+    old = None
+    if os.path.exists(path):
+        with open(path) as f:
+            old = f.read()
+    if old != txt:
+        with open(path, "w") as f:
+            f.write(txt)
+
+
 def main():
     try:
-        E = extract()
+        E, M = extract()
+        txt = render(E)
     except ExtractError as e:
         print("EXTRACT-ERROR translator:%s" % e)
         return 2
-    txt = render(E)
-    out = os.path.normpath(OUT)
-    os.makedirs(os.path.dirname(out), exist_ok=True)
-    old = None
-    if os.path.exists(out):
-        with open(out) as f:
-            old = f.read()
-    if old != txt:
-        with open(out, "w") as f:
-            f.write(txt)
+    gen = os.path.normpath(GEN)
+    os.makedirs(gen, exist_ok=True)
+    write_if_changed(os.path.join(gen, "Extracted.v"), txt)
+    meta = {"repo": REPO, "items": len(E), "located": {k: M[k] for k in sorted(M)}}
+    write_if_changed(os.path.join(gen, "extracted_meta.json"), json.dumps(meta, indent=1, sort_keys=True) + "\n")
     if "--json" in sys.argv:
-        print(json.dumps(E))
+        print(json.dumps(jsonable(E)))
     return 0
 
 
